@@ -19,8 +19,20 @@ def main(pid, tier="quick", filter_substr=None):
             res = json.loads(line)
             break
     msgs = []
+    known = []
+    try:
+        import re
+        kf = json.load(open(os.path.join(here, "..", "known_findings.json")))
+        known = [k for k in kf.get("findings", []) if k.get("property") == pid and k.get("kind") == "bounded"]
+    except Exception:
+        pass
+
+    def is_known(sig):
+        return any((k.get("id") == sig) or (k.get("id_regex") and re.search(k["id_regex"], sig)) for k in known)
     if res:
         for f in res.get("failures", []):
+            if is_known(f["signature"]):
+                continue            # a listed finding is not the witness of a NEW violation
             if filter_substr is None or filter_substr in f["signature"]:
                 msgs.append(f["what"])
     print(json.dumps({"confirmed": bool(msgs), "what": msgs[0] if msgs else None, "all": msgs[:4]}))
